@@ -45,62 +45,72 @@ Proof.
 Qed.
 
 (* ---------- the lexicographic comparison over a field list ---------- *)
-Section Lex.
-  Variable ks : list str.
-  Notation f := field_by_name.
+Section LexF.
+  Variable fs : list (raw -> str).
 
-  Lemma lex_asym : forall a b, lex_ltb ks a b = true -> lex_ltb ks b a = false.
+  Lemma lexf_asym : forall a b, lex_ltbf fs a b = true -> lex_ltbf fs b a = false.
   Proof.
-    induction ks as [|k ks' IH]; intros a b; cbn [lex_ltb]; [discriminate|].
-    rewrite (str_eqb_sym (f k b) (f k a)). destruct (str_eqb (f k a) (f k b)); [apply IH|apply str_ltb_antisym].
+    induction fs as [|k ks' IH]; intros a b; cbn [lex_ltbf]; [discriminate|].
+    rewrite (str_eqb_sym (k b) (k a)). destruct (str_eqb (k a) (k b)); [apply IH|apply str_ltb_antisym].
   Qed.
 
-  Lemma lex_trans : forall a b c, lex_ltb ks a b = true -> lex_ltb ks b c = true -> lex_ltb ks a c = true.
+  Lemma lexf_trans : forall a b c, lex_ltbf fs a b = true -> lex_ltbf fs b c = true -> lex_ltbf fs a c = true.
   Proof.
-    induction ks as [|k ks' IH]; intros a b c; cbn [lex_ltb]; [discriminate|].
-    destruct (str_eqb (f k a) (f k b)) eqn:E1; destruct (str_eqb (f k b) (f k c)) eqn:E2.
+    induction fs as [|k ks' IH]; intros a b c; cbn [lex_ltbf]; [discriminate|].
+    destruct (str_eqb (k a) (k b)) eqn:E1; destruct (str_eqb (k b) (k c)) eqn:E2.
     - apply str_eqb_true in E1. apply str_eqb_true in E2. rewrite E1, E2, str_eqb_refl. apply IH.
     - apply str_eqb_true in E1. rewrite E1, E2. auto.
     - apply str_eqb_true in E2. rewrite <- E2, E1. auto.
     - intros H1 H2. pose proof (str_ltb_trans _ _ _ H1 H2) as H3.
-      destruct (str_eqb (f k a) (f k c)) eqn:E3; [|exact H3].
+      destruct (str_eqb (k a) (k c)) eqn:E3; [|exact H3].
       apply str_eqb_true in E3. rewrite E3, str_ltb_irrefl in H3. discriminate.
   Qed.
 
   (* co-transitivity (negative transitivity of the strict part) *)
-  Lemma lex_cotrans : forall z x y, lex_ltb ks z x = true -> lex_ltb ks y x = true \/ lex_ltb ks z y = true.
+  Lemma lexf_cotrans : forall z x y, lex_ltbf fs z x = true -> lex_ltbf fs y x = true \/ lex_ltbf fs z y = true.
   Proof.
-    induction ks as [|k ks' IH]; intros z x y; cbn [lex_ltb]; [discriminate|].
-    destruct (str_trichotomy (f k y) (f k x)) as [T|[T|T]].
-    - intros _. left. destruct (str_eqb (f k y) (f k x)) eqn:E; [|exact T].
+    induction fs as [|k ks' IH]; intros z x y; cbn [lex_ltbf]; [discriminate|].
+    destruct (str_trichotomy (k y) (k x)) as [T|[T|T]].
+    - intros _. left. destruct (str_eqb (k y) (k x)) eqn:E; [|exact T].
       apply str_eqb_true in E. rewrite E, str_ltb_irrefl in T. discriminate.
-    - rewrite T, str_eqb_refl. destruct (str_eqb (f k z) (f k x)) eqn:E; [apply IH|]. intro H. right. exact H.
-    - destruct (str_eqb (f k z) (f k x)) eqn:E.
+    - rewrite T, str_eqb_refl. destruct (str_eqb (k z) (k x)) eqn:E; [apply IH|]. intro H. right. exact H.
+    - destruct (str_eqb (k z) (k x)) eqn:E.
       + apply str_eqb_true in E. intros _. right. rewrite E.
-        destruct (str_eqb (f k x) (f k y)) eqn:E2; [|exact T].
+        destruct (str_eqb (k x) (k y)) eqn:E2; [|exact T].
         apply str_eqb_true in E2. rewrite E2, str_ltb_irrefl in T. discriminate.
       + intro H. right. pose proof (str_ltb_trans _ _ _ H T) as H3.
-        destruct (str_eqb (f k z) (f k y)) eqn:E2; [|exact H3].
+        destruct (str_eqb (k z) (k y)) eqn:E2; [|exact H3].
         apply str_eqb_true in E2. rewrite E2, str_ltb_irrefl in H3. discriminate.
   Qed.
 
-  Lemma lex_le_trans : forall x y z, le (lex_ltb ks) x y -> le (lex_ltb ks) y z -> le (lex_ltb ks) x z.
+  Lemma lexf_le_trans : forall x y z, le (lex_ltbf fs) x y -> le (lex_ltbf fs) y z -> le (lex_ltbf fs) x z.
   Proof.
-    unfold le. intros x y z H1 H2. destruct (lex_ltb ks z x) eqn:E; [|reflexivity].
-    destruct (lex_cotrans z x y E) as [H|H]; congruence.
+    unfold le. intros x y z H1 H2. destruct (lex_ltbf fs z x) eqn:E; [|reflexivity].
+    destruct (lexf_cotrans z x y E) as [H|H]; congruence.
   Qed.
 
-  Definition n_Value : str := B [86;97;108;117;101].
-  Lemma lex_total : In n_Value ks -> forall a b, value a <> value b -> lex_ltb ks a b = true \/ lex_ltb ks b a = true.
+  (* total on records with distinct values as soon as one of the compared fields is the value *)
+  Lemma lexf_total : (exists g, In g fs /\ forall r, g r = value r) ->
+    forall a b, value a <> value b -> lex_ltbf fs a b = true \/ lex_ltbf fs b a = true.
   Proof.
-    induction ks as [|k ks' IH]; intros Hin a b Hne; [destruct Hin|]. cbn [lex_ltb].
-    rewrite (str_eqb_sym (f k b) (f k a)). destruct (str_eqb (f k a) (f k b)) eqn:E.
-    - destruct Hin as [->|Hin]; [|apply IH; assumption].
-      apply str_eqb_true in E. exfalso. apply Hne. exact E.
-    - destruct (str_trichotomy (f k a) (f k b)) as [T|[T|T]]; auto.
+    induction fs as [|k ks' IH]; intros (g & Hin & Hg) a b Hne; [destruct Hin|]. cbn [lex_ltbf].
+    rewrite (str_eqb_sym (k b) (k a)). destruct (str_eqb (k a) (k b)) eqn:E.
+    - destruct Hin as [->|Hin]; [|apply IH; [exists g; auto|assumption]].
+      apply str_eqb_true in E. exfalso. apply Hne. rewrite <- !Hg. exact E.
+    - destruct (str_trichotomy (k a) (k b)) as [T|[T|T]]; auto.
       rewrite T, str_eqb_refl in E. discriminate.
   Qed.
-End Lex.
+End LexF.
+
+Definition n_Value : str := B [86;97;108;117;101].
+Lemma lex_asym ks : forall a b, lex_ltb ks a b = true -> lex_ltb ks b a = false.
+Proof. apply lexf_asym. Qed.
+Lemma lex_le_trans ks : forall x y z, le (lex_ltb ks) x y -> le (lex_ltb ks) y z -> le (lex_ltb ks) x z.
+Proof. apply lexf_le_trans. Qed.
+Lemma lex_total ks : In n_Value ks -> forall a b, value a <> value b -> lex_ltb ks a b = true \/ lex_ltb ks b a = true.
+Proof.
+  intro Hin. apply lexf_total. exists (field_by_name n_Value). split; [apply in_map; exact Hin|reflexivity].
+Qed.
 
 (* ---------- any correct sort is deterministic on records with distinct values ---------- *)
 Lemma NoDup_map_inv' {A B} (g : A -> B) l : NoDup (map g l) -> NoDup l.
